@@ -20,5 +20,12 @@ Section Extract.
   Definition wrapper_find_dimensions (sp : spec) (sh : shapes) (p : list T) : option denv :=
     find_dimensions T truncZ (fun a b => ltb b a) sp sh (mem_of_plist p).
 
+  (** InitialiseStates(n) of the wrapper for an init function [Kinit] (the driver supplies, as
+      [Kinit], the table "parameter column -> state row of the model's own init function" measured
+      on single cells): sized from cell 0, cell i gets set i mod nSets, rows written at i * L0. *)
+  Definition wrapper_initialise_states (Kinit : list T -> list T) (sp : spec) (nSets : nat) (p : list T) (n : nat)
+    : option (list nat * list T) :=
+    initialise_states T zero Kinit sp nSets (pm_of_list p) n.
+
   Definition wrapper_spec (name : string) : option spec := wrapper_spec_of name wrapper_specs.
 End Extract.
